@@ -36,7 +36,7 @@ ASSUMPTIONS = [
     "the two pad bytes of the undocumented AT5 outer header are not 'covered bytes' and are not corrupted",
     "the exhaustive 1..2-byte comparison of calculate() is a plain function comparison, not simulation; the 3-byte enumeration and the induction on length of the property text are not reproduced",
 ]
-PROBES = ["c06.single_bit", "c06.double_bit", "c06.burst", "c06.check_bytes_only", "c06.after_intact_original", "c06.in_prefix", "c06.in_length", "c06.in_crc", "c06.in_payload", "c06.waited_for_bytes", "c06.function_audit"]
+PROBES = ["c06.single_bit", "c06.double_bit", "c06.burst", "c06.check_bytes_only", "c06.after_intact_original", "c06.special_register_frame", "c06.intact_special_register", "c06.in_prefix", "c06.in_length", "c06.in_crc", "c06.in_payload", "c06.waited_for_bytes", "c06.function_audit"]
 EXHAUSTIVE = True
 TRUSTED_BASE = ["ref/crc.py (bitwise CRC-16/MODBUS)", "ref/wire4.py, ref/wire5.py (framing)"]
 
@@ -87,6 +87,51 @@ def _positions(gen: int, n_bytes: int):
     return [b for b in range(n_bytes * 8) if b not in skip]
 
 
+_special_cache = {}
+
+
+def _special_frames(gen: int):
+    """Well-formed frames whose CRC register, after the covered header bytes, holds 0x0000 or 0xFFFF (the states in which a
+    receiver that checks header and payload in two steps, or restarts the register, goes wrong).  Found by search over
+    packet id x payload length x (unknown) message type."""
+    if gen in _special_cache:
+        return _special_cache[gen]
+    w = common.wire(gen)
+    rng = random.Random(4242 + gen)
+    known = {0x1F, 0x2A, 0x2B, 0x2C, 0x2D, 0x36, 0x37} if gen == 4 else {0x1F, 0xC0}
+    table = []
+    for i in range(256):
+        r = i
+        for _ in range(8):
+            r = (r >> 1) ^ 0xA001 if r & 1 else r >> 1
+        table.append(r)
+
+    def reg_of(bs):
+        r = 0xFFFF
+        for x in bs:
+            r = (r >> 8) ^ table[(r ^ x) & 0xFF]
+        return r
+
+    found = {}
+    types = [x for x in (0x01, 0x10, 0x33, 0x44, 0x5A, 0x77, 0x99, 0xEE, 0x02, 0x21, 0x48, 0x63, 0x81, 0xA5, 0xD2, 0xF0) if x not in known]
+    for length in range(0, 200):
+        for t in types:
+            for pid in range(256):
+                reg = reg_of((w.ADDR_CLIENT, w.ADDR_CONSOLE, pid, t, length >> 8, length & 0xFF))
+                if reg in (0x0000, 0xFFFF) and reg not in found:
+                    payload = bytes(rng.randrange(256) for _ in range(length))
+                    fr = w.frame(w.ADDR_CLIENT, w.ADDR_CONSOLE, pid, t, payload)
+                    off = 2 if gen == 4 else 14
+                    assert refcrc.crc_bytes(fr[off:off + 6]) == reg.to_bytes(2, "big")
+                    found[reg.to_bytes(2, "big")] = fr
+            if len(found) == 2:
+                break
+        if len(found) == 2:
+            break
+    _special_cache[gen] = [("reg%s" % k.hex(), v) for k, v in sorted(found.items())]
+    return _special_cache[gen]
+
+
 def _check_byte_patterns(fr: bytes, rng=None, exhaustive: bool = False):
     """Error patterns confined to the two check bytes (bursts <= 16 bits): what a receiver that is lenient about byte
     order, initial value or one of the two bytes would let through."""
@@ -111,6 +156,16 @@ def _check_byte_patterns(fr: bytes, rng=None, exhaustive: bool = False):
 
 def enumerated(tier: str):
     for gen in (4, 5):
+        # frames with a special CRC register value at the header / payload boundary: intact they must be delivered,
+        # damaged they must not
+        for name, fr in _special_frames(gen):
+            pos = _positions(gen, len(fr))
+            for nb in (False, True):
+                yield _scenario(gen, "unknown:" + name, fr, [], "intact", with_neighbours=nb)
+            for b in pos:
+                yield _scenario(gen, "unknown:" + name, fr, [b], "single", with_neighbours=(b % 4 == 0))
+            for pname, bits in _check_byte_patterns(fr, random.Random(99), exhaustive=False):
+                yield _scenario(gen, "unknown:" + name, fr, bits, "checkbytes", with_neighbours=False)
         samples = _samples(gen)
         for i, (kind, fr) in enumerate(samples):
             # the check bytes alone: order, single byte, constants (every sample), every 16-bit pattern (thorough, one sample)
@@ -232,7 +287,9 @@ def execute(sc: dict) -> dict:
     t_in, t_pr = inp["at"], (prb["at"] if prb else 1e9)
     got = [m for m in w.messages if t_in <= m["t"] < t_pr]
     pattern = info.get("pattern", "?")
-    probes["c06." + {"single": "single_bit", "double": "double_bit", "burst": "burst", "checkbytes": "check_bytes_only"}.get(pattern, "single_bit")] = 1
+    probes["c06." + {"single": "single_bit", "double": "double_bit", "burst": "burst", "checkbytes": "check_bytes_only", "intact": "intact_special_register"}.get(pattern, "single_bit")] = 1
+    if str(info.get("kind", "")).startswith("unknown:reg"):
+        probes["c06.special_register_frame"] = 1
     hl = 8 if gen == 4 else 20
     pre = 2 if gen == 4 else 14
     for b in info.get("bits", []):
